@@ -190,6 +190,17 @@ impl Engine for E {
                 for k in ["account.cred_id", "account.network", "credentials.reordered", "global_context", "linking.signature_altered", "linking.signature_extra", "linking.signature_removed", "presentation_context", "public.commitment", "public.issuer_key", "public.missing", "proofs.exchanged", "statement.range.lower", "statement.range.upper", "statement.set.element_added", "statement.set.element_removed", "statement.tag", "web3.commitments.commitment", "web3.commitments.signature", "web3.contract", "web3.created", "web3.holder", "web3.network"] {
                     f.push((format!("perturb.pres.{}", k), 8 * s));
                 }
+                // mixed v0 presentations (web3 + account credentials): the linking signatures bind every field of every credential proof
+                for k in ["issuer", "network", "cred_id", "created"] {
+                    f.push((format!("perturb.pres.mixed.account.{}", k), 30 * s));
+                }
+                for k in ["holder", "contract", "network", "created", "commitments.signature", "commitments.commitment"] {
+                    f.push((format!("pres.mixed.web3.{}", k), 30 * s));
+                }
+                for (k, n) in [("pres.mixed.credential.account", 30), ("pres.mixed.credential.web3", 30), ("perturb.pres.account.proof_bitflip", 15), ("perturb.pres.web3.proof_bitflip", 15),
+                    ("perturb.pres.mixed.account.proof_bitflip", 6), ("perturb.pres.mixed.web3.proof_bitflip", 6)] {
+                    f.push((k.to_string(), n * s));
+                }
                 // web3id v1 presentations and the anchored verification flow
                 for k in [
                     "baseline", "issuers.only_exact", "issuers.same_idp_other_network", "issuers.other_idp_same_network", "issuers.cross_network", "issuers.cross_network_3", "issuers.exact_last_of_3",
